@@ -415,6 +415,25 @@ def check_hex_and_numbers(ctx, F, rule="R-TABLE"):
         ctx.ob(rule, "numbers|%s-whole-span" % fn.rsplit("::", 1)[-1], span, "%s::from_str is applied to the whole consumed prefix of the input" % ty, pb.where(),
                what="%s no longer converts the whole matched text (sign included) with %s::from_str: a value the writer can produce (e.g. i64::MIN, "
                     "whose magnitude alone does not fit) is rejected, and everything after it in a content stream is silently dropped" % (fn, ty))
+    # Display of f32 never uses an exponent and prints an integral value without a decimal point, with as many digits as
+    # it takes (3.0e38 is a run of 39 digits): among the number alternatives of the object parser and of the content-operand
+    # parser there must be one that converts a plain run of digits (no '.' required) with f32::from_str, or such a Real is
+    # written but cannot be read back (i64::from_str overflows)
+    for fn in ("parser::_direct_objects", "parser::operand"):
+        pb = F.fn(fn)
+        got = []
+        for body in F.with_closures(pb):
+            for n, _k, _w in body.fn_mentions():
+                cb = F.bodies.get(n)
+                if cb is None or cb.kind == "Closure":
+                    continue
+                near = F.with_closures(cb)
+                f32s = [c for x in near for c in x.calls if re.search(r"<f32 as (std|core)::str::FromStr>::from_str$", c.full or "")]
+                dots = [c for x in near for c in lib.calls_named(x, r"complete::tag$") if lib._const_bytes_through(x, c.args[0]) == b"."]
+                if f32s and not dots:
+                    got.append(F.canon_of(cb))
+        ctx.ob(rule, "numbers|digit-run-beyond-i64-read-as-real|%s" % fn.rsplit("::", 1)[-1], bool(got), "a run of digits that overflows i64 is converted with f32::from_str (%s)" % sorted(set(got)), pb.where(),
+               what="%s has no alternative that reads a plain run of digits as a real number: Real values of 2^63 and above are written without a decimal point (Display of f32) and cannot be read back, the enclosing object is dropped on load" % fn)
     lits = [lib._const_bytes_through(wo, c.args[1]) for c in lib.calls_named(wo, r"io::Write::write_all$")]
     ctx.ob(rule, "keywords", b"null" in lits and b"true" in lits and b"false" in lits, "null/true/false keywords", wo.where(), what="write_object lost a keyword spelling")
 
